@@ -68,7 +68,11 @@ Inductive qop :=
 | PushBad                       (* push(invalid), invalid is not None *)
 | RemoveBad                     (* Dusq.remove(invalid) *)
 | RawPutBad (pre post : list val) (* .put(pre ++ [invalid] ++ post): the durable-side method itself *)
-| RawAddBad.                    (* .add(invalid) *)
+| RawAddBad                     (* .add(invalid) *)
+(* the caller changes a (non-frozen) value object it handed in earlier through push / extend /
+   update / the constructor, or obtained from iteration or pull.  Durq (after the repair of D40)
+   and Dusq keep and hand out private copies, so this is not an operation on the container. *)
+| CallerMutates.
 
 Record snap := { sn_res : res rv; sn_mem : list val; sn_store : list bytes }.
 
@@ -183,6 +187,7 @@ Section Durq.
     | RemoveBad => if set then (s, st, Exc HierErr) else (s, st, Exc AttrErr)
     (* put()/add() clear the stale flag, then _ser raises on the invalid member before any write *)
     | RawPutBad _ _ | RawAddBad => (s, {| mem := mem st; stale := false |}, Exc HierErr)
+    | CallerMutates => (s, st, Ok (ROpt None))
     | Reopen pre =>
       gsync set q s (fresh (if set then oset_update [] pre else pre)) false
     end.
@@ -226,6 +231,7 @@ Section Durq.
     (* a rejected operation leaves the content as it is *)
     | ExtendBad _ _ | PushBad | RawPutBad _ _ | RawAddBad => (l, Exc HierErr)
     | RemoveBad => (l, if set then Exc HierErr else Exc AttrErr)
+    | CallerMutates => (l, Ok (ROpt None))
     | Reopen pre | Enter _ pre =>
       match l with
       | [] => (if set then dedupe pre else pre, Ok (RBool true))
@@ -397,8 +403,9 @@ Definition qop_index (o : qop) : nat :=
   | Push _ => 0 | PushNone => 1 | Extend _ => 2 | Pull _ => 3 | Clear => 4 | Count _ => 5
   | Remove _ => 6 | Sync _ => 7 | Reopen _ => 8 | ExtendBad _ _ => 9 | PushBad => 10
   | RemoveBad => 11 | RawPutBad _ _ => 12 | RawAddBad => 13 | Enter _ _ => 14
+  | CallerMutates => 15
   end.
-Definition n_branches : nat := 90.
+Definition n_branches : nat := 96.
 Definition case_branches (c : case) : list nat :=
-  map (fun p : (bool * N * qop) * snap => ((if fst (fst (fst p)) then 45 else 0) + qop_index (snd (fst p)) * 3 + outcome (sn_res (snd p)))%nat)
+  map (fun p : (bool * N * qop) * snap => ((if fst (fst (fst p)) then 48 else 0) + qop_index (snd (fst p)) * 3 + outcome (sn_res (snd p)))%nat)
       (combine (c_ops c) (mrun (pyeq_of (c_eq c)) store spec_sstep spec_view menv0 mqueues0 (c_ops c))).
